@@ -34,6 +34,10 @@ CLAIMED = {
             "Theorems (Properties_C17.v), all over terms regenerated from /repo's working tree on every run: the shipped ruleguard IR equals the IR obtained by compiling checkers/rules/rules.go today (sx_eqb proved sound, equality decided by vm_compute); rule groups and embedded checkers are in bijection preserving name, tags and trimmed summary/before/after/note, with no duplicate group; docs/overview.md's rows and sections are exactly the registered checkers and its total matches; `go-critic doc` lists exactly the registry with tags (marks agree with the selection rule by C06_docs_overview_marks_agree). A stale rulesdata.go, an edited rule, a renamed group or a stale overview breaks a proof obligation; the oracle then reports the first differing group/line as the failing input. Cross-checks independent of the translator: the repository's own go:generate command output compared byte for byte, a fresh makedocs run compared with docs/overview.md.",
             "Trusted: Coq kernel + vm_compute; the translator (reflection walk of *ir.File, doc parsers); ruleguard's irconv and IR loader are not modelled.",
             "§5 C17"),
+    "C18": ("Coq theorems by induction over rule-file/pattern sequences of a transliterated newRuleguardChecker + fault-sequence correspondence with rule files materialised on disk",
+            "Theorems (Properties_C18.v): for EVERY sequence of patterns and files (valid, unreadable, syntax error, DSL error, empty, unresolvable import) and every failOn/legacy/enable/disable value: an unknown failOn value is always an error; with rules given, initialisation fails iff some pattern matches nothing or some file fails with a listed class; otherwise exactly the enabled groups of the valid files are active (independent of where the skipped files sit) and the skipped files are exactly the faulty ones; nothing loaded => no-op; the group filter equals the documented sentence and experimental groups run only on request; the two pre-fix deviations are refuted. Tie: random fault sequences materialised on disk (dangling symlinks, globs with 0/1/many matches, malformed globs) and loaded through linter.NewChecker; error class, firing groups on a trigger file and skip-log lines compared in Coq with the model. Oracle: the property's sentences evaluated directly on the same runs.",
+            "Trusted: Coq kernel + vm_compute; ruleguard's classification of load errors is observed (a DSL/import error inside a group rejected by the filter does not occur; modelled as such after the tie showed it); Glob ordering; ASCII TrimSpace.",
+            "§5 C18"),
 }
 
 NOT_APPLICABLE = {}
